@@ -51,7 +51,12 @@ def opSrvReq (args : List SExp) : Option OpResult := do
     -- allows the method (collections are created at collection level, objects written at object level, …)
     let c12 : String → List (String × String) := fun got =>
       if !malformed r && !out.mutated && got.endsWith " 1" then [("C12", s!"{r.method}-reached-a-mutating-call-at-level-{r.level}")] else []
-    pure ⟨impl, fun got => judgeOutcome (malformed r) r.method got ++ c12 got⟩
+    -- `altered-path`: a backend call carried a path that is neither the request path (unchanged, with or without its
+    -- trailing slash) nor one the backend handed out (C12: operations are invoked with the request path)
+    let strip (got : String) : String := if got.endsWith " altered-path" then String.ofList (got.toList.take (got.length - 13)) else got
+    let c12p : String → List (String × String) := fun got =>
+      if got.endsWith " altered-path" then [("C12", s!"{r.method}-backend-called-with-an-altered-path")] else []
+    pure ⟨impl, fun got => judgeOutcome (malformed r) r.method (strip got) ++ c12 (strip got) ++ c12p got⟩
   | _ => none
 
 /-- `srv.obj <srv> <body> => <status> <mutated>`: an object body through PUT; the object parsers are outside the model
